@@ -65,6 +65,7 @@ def _case(draw, mode):
         "steps": draw(_steps()),
         "steps2": draw(_steps()) if mode == "save-twice" else [],
         "shrink_second": draw(st.booleans()),
+        "gwl_dir": draw(st.booleans()),
     }
 
 
@@ -131,7 +132,11 @@ def check_case(case) -> Obs:
     mode = case["mode"]
     tmp = tempfile.mkdtemp(prefix="vf_c17_")
     try:
-        path = os.path.join(tmp, case["name"])
+        base = tmp
+        if case["mode"] == "bad-name" and case.get("gwl_dir"):
+            base = os.path.join(tmp, "assay.gwl_parts")  # '.gwl' in a directory name does not make the file name valid
+            os.makedirs(base)
+        path = os.path.join(base, case["name"])
         arg = pathlib.Path(path) if case["path_kind"] == "Path" else path
         obs.cls("mode:" + mode, "path:" + case["path_kind"])
         cls = robotools.EvoWorklist
@@ -258,7 +263,7 @@ def check_case(case) -> Obs:
         if any(ord(ch) > 127 for r in records for ch in r):
             obs.cls("non-ascii")
         obs.nontrivial = len(records) >= 2 and (pre == "longer" or mode == "save-twice" or any(ord(ch) > 127 for r in records for ch in r))
-        leftovers = [f for f in os.listdir(tmp) if f not in (case["name"], "explicit.gwl")]
+        leftovers = [f for f in os.listdir(tmp) if f not in (case["name"], "explicit.gwl", "assay.gwl_parts")]
         if leftovers:
             obs.bad("C17/stray-files", f"saving created additional files {leftovers}")
     finally:
